@@ -1211,3 +1211,8 @@ class C20(Check):
             return dict(input=shown, status=status, content_type=ctype, body=text, oracle=self._oracle(apps, c))
         finally:
             apps.close()
+
+
+# the composed stream (one real application, one request, against App.serve of Model/App.lean)
+from harness import applib as _applib  # noqa: E402
+_applib.install(C20, quick=(250, 100), thorough=(8000, 2500))
